@@ -188,6 +188,12 @@ def alphabet():
                   insert=[(None, [(LIT, P, X), (X, Q, LIT)])]))
     ops.append(Op("insert-fresh-bnode", "INSERT { _:n %s ?x . _:n %s ?y } WHERE { ?x %s ?y }" % (tt(P), tt(Q), tt(P)), "modify", where=W,
                   insert=[(None, [("BN", P, X), ("BN", Q, Y)])]))
+    # the solution sequence is a multiset: a solution that occurs twice instantiates the template twice, each time with fresh blank nodes
+    WW = ("union", W, W)
+    ops.append(Op("insert-fresh-bnode-duplicate-solutions", "INSERT { _:n %s ?x . _:n %s ?y } WHERE { { ?x %s ?y } UNION { ?x %s ?y } }" % (tt(P), tt(Q), tt(P), tt(P)), "modify", where=WW,
+                  insert=[(None, [("BN", P, X), ("BN", Q, Y)])]))
+    ops.append(Op("modify-fresh-bnode-duplicate-solutions-graph", "DELETE { ?x %s ?y } INSERT { GRAPH %s { [] %s ?x } } WHERE { { ?x %s ?y } UNION { ?x %s ?y } }" % (tt(P), tt(G1), tt(Q), tt(P), tt(P)),
+                  "modify", where=WW, delete=[(None, [(X, P, Y)])], insert=[(G1, [("BN", Q, X)])], needs_dataset=True))
     ops.append(Op("insert-graphvar", "INSERT { GRAPH ?g { ?x %s ?y } } WHERE { GRAPH ?g { ?x %s ?y } }" % (tt(Q), tt(P)), "modify", where=("graph", GV, W),
                   insert=[(GV, [(X, Q, Y)])], needs_dataset=True))
     ops.append(Op("insert-into-graph", "INSERT { GRAPH %s { ?x %s ?y } } WHERE { ?x %s ?y }" % (tt(G1), tt(P), tt(P)), "modify", where=W, insert=[(G1, [(X, P, Y)])], needs_dataset=True))
